@@ -190,6 +190,8 @@ def check_sigapi(case):
     # in preimage mode the message already ends in the 4-byte flag
     eff_flag = flag if flag is not None else case["pflag"]
     msg = body + eff_flag.to_bytes(4, "little") if preimage else body
+    if not preimage and flag is not None and body.endswith(flag.to_bytes(4, "little")):
+        cls.append("nt:plain-msg-ends-in-its-hash-type")
     if len(msg) in (32, 64):
         cls.append(f"nt:msg-len-{len(msg)}/{'preimage' if preimage else 'plain'}")
     z = int.from_bytes(_msg_digest(msg, flag, preimage), "big")
@@ -400,10 +402,18 @@ def sigapi_cases(draw):
     body = draw(gen.sized_binary(200)) if blen is None else draw(st.binary(min_size=blen, max_size=blen))
     if blen is None and draw(st.integers(0, 4)) == 0:
         body = draw(gen.lookalike_bytes())  # hex text, whitespace or NUL at the ends, literals: a message is opaque bytes
+    pflag = draw(st.sampled_from([0x01, 0x02, 0x03, 0x81, 0x82, 0x83]))
+    # a message that already ends the way a pre-image does (the 4-byte hash type, its own or another one, or the one-byte
+    # flag): in plain mode it is still only a message, and the hash type is appended to it like to any other
+    tail = draw(st.sampled_from([None] * 6 + ["own", "own", "other", "byte"]))
+    if tail is not None:
+        tf = (flag if flag is not None else pflag) if tail != "other" else pflag
+        t = bytes([tf]) if tail == "byte" else tf.to_bytes(4, "little")
+        body = (body[: -len(t)] if blen is not None and len(body) >= len(t) else body) + t
     case = {
         "msg": body.hex(),
         "flag": flag,
-        "pflag": draw(st.sampled_from([0x01, 0x02, 0x03, 0x81, 0x82, 0x83])),
+        "pflag": pflag,
         "preimage": preimage,
         "d": draw(gen.scalars_valid()),
         "k": draw(st.integers(1, N - 1)),
@@ -427,7 +437,7 @@ def targets(tier):
                          "nt:s-negated || rng-not-consulted || rng-draw-not-the-nonce", "nt:r-short || rng-not-consulted || rng-draw-not-the-nonce", "nt:s-short || rng-not-consulted || rng-draw-not-the-nonce", "nt:r-pad || rng-not-consulted || rng-draw-not-the-nonce",
                          "nt:s-short-pad || rng-not-consulted || rng-draw-not-the-nonce", "nt:pair-key", "nt:pair-message"]),
         Target("sig-api", check_sigapi, strategy=lambda tier: sigapi_cases(), budget={"quick": 500, "thorough": 10000},
-               required=["nt:preimage", "nt:flag-anyonecanpay", "nt:s-short-pad || rng-not-consulted || rng-draw-not-the-nonce", "nt:r-short || rng-not-consulted || rng-draw-not-the-nonce", "nt:solved-key", "nt:msg-len-32/preimage", "nt:msg-len-32/plain", "nt:msg-len-64/preimage", "nt:msg-len-64/plain", "nt:after-same-key-and-bytes-in-other-mode", "nt:der-length-64 || rng-not-consulted || rng-draw-not-the-nonce"]),
+               required=["nt:preimage", "nt:flag-anyonecanpay", "nt:s-short-pad || rng-not-consulted || rng-draw-not-the-nonce", "nt:r-short || rng-not-consulted || rng-draw-not-the-nonce", "nt:solved-key", "nt:msg-len-32/preimage", "nt:msg-len-32/plain", "nt:msg-len-64/preimage", "nt:msg-len-64/plain", "nt:after-same-key-and-bytes-in-other-mode", "nt:plain-msg-ends-in-its-hash-type", "nt:der-length-64 || rng-not-consulted || rng-draw-not-the-nonce"]),
         Target("der-codec", check_der, enumerate_=enum_der, required=["nt:s-short-pad", "nt:r-short-pad", "nt:r-pad"]),
         Target("small-curve", check_small, enumerate_=enum_small, exhaustive=True),
     ]
